@@ -47,6 +47,11 @@ def cases(tier: str, seed: int) -> List[Dict[str, Any]]:
         out.append({'part': 'P', 'path': p})
     for name in DIRECTED:
         out.append({'part': 'D', 'name': name})
+    # class hierarchies spread over modules that import each other (C05's generator): bases that are unresolved when their class
+    # statement is visited, subclasses registered before their bases, class attributes assigned in the bodies
+    nh = 200 if tier == 'quick' else 4000
+    for k in range(0, nh, 20):
+        out.append({'part': 'H', 'seed': seed, 'k': k, 'n': 20})
     return out
 
 
@@ -118,6 +123,34 @@ def run_case(case: Dict[str, Any]) -> core.Res:
         finally:
             shutil.rmtree(base, ignore_errors=True)
         res.sample({'directed': case['name']})
+        for k, v in registry.counters.items():
+            res.c(k, v)
+        return res
+    if case['part'] == 'H':
+        from pydoctor import model
+        from vf.checks import c05
+        for j in range(case['n']):
+            mods = c05._gen_random(case['seed'], case['k'] + j, cyclic=True)
+            r = core.rng('C02', 'H', case['seed'], case['k'] + j)
+            for o in range(2):
+                names = list(mods)
+                r.shuffle(names)
+                label = f"C02H:{case['seed']}:{case['k'] + j}/o{o}"
+                system = model.System()
+                system.options.verbosity = -10
+                b = system.systemBuilder(system)
+                try:
+                    for nm in names:
+                        b.addModuleString(mods[nm], nm)
+                    b.buildModules()
+                except Exception as e:  # noqa: BLE001
+                    res.v(f'C02:analysis-raises:{type(e).__name__}', f'{label}: analysis raised {e!r}', traceback=traceback.format_exc()[-2000:], sources=mods)
+                    continue
+                _judge(res, system, label, {'project': label, 'sources': mods, 'order': names})
+                res.c('evaluations')
+                res.c('cyclic_hierarchy_systems')
+                res.distinct(label)
+        res.sample({'cyclic_hierarchies': f"{case['seed']}:{case['k']}"})
         for k, v in registry.counters.items():
             res.c(k, v)
         return res
